@@ -14,6 +14,10 @@ import CLModel.Proofs.C07Num
 import CLModel.Proofs.C07ERx
 import CLModel.Proofs.C07EGrammar
 import CLModel.Proofs.C08CReject
+import CLModel.Proofs.C07State
+import CLModel.Proofs.C07Lit
+import CLModel.Proofs.C07Android
+import CLModel.Proofs.C07CssComplete
 namespace C07
 open Dtd
 
@@ -722,4 +726,468 @@ example : IsJunk (tx " x") := ⟨by decide, ⟨120, by decide, by decide, by dec
 example : parseCssSpec (tx "width:1em x") = (some [(tx "width", tx "em")], some [⟨9, CssCode.badContent⟩]) := by decide +kernel
 
 end examplesC
+/-! ## round 4: the checker INSTANCE (one `DTDChecker` per file, `check` per entity)
+
+`DtdState.step` is `DTDChecker.check` with the state of the object threaded through (`self.reference`, the memo
+`self.__known_entities`, `self.processContent`, the shared `texthandler.textcontent`, the lazily compiled CSS
+regexes).  `C07S.Inv` is what `__init__` + at most one `set_reference` before the first `check` establish. -/
+
+section instance_
+open DtdState
+
+/-- the state in which `ContentComparer.compare` / `L10nLinter.lint_file` start checking: `getChecker`, then
+    `set_reference` iff the checker `needs_reference`; `t0` = whatever the shared text handler holds -/
+def startState (android : Bool) (t0 : Text) : Option (List Text) → State
+  | some vals => setReference (init android t0) vals
+  | none => init android t0
+
+theorem startState_inv (android : Bool) (t0 : Text) (reference : Option (List Text)) :
+    C07S.Inv (startState android t0 reference) := by
+  cases reference with
+  | none => exact C07S.inv_init android t0
+  | some vals => exact C07S.inv_setReference _ vals (C07S.inv_init android t0) rfl
+
+/-- checker_step_is_stateless: in every state reachable by the real callers the verdict of `check` is the stateless
+    `Dtd.check` of (extra tests, reference, the two entities) — the state only memoises — and the state stays reachable. -/
+theorem checker_step_is_stateless (xmlParse : Bytes → ParseRes) (st : State) (ref l10n : Ent) (h : C07S.Inv st) :
+    (step xmlParse st ref l10n).2 = check xmlParse (inpOf st ref l10n) ∧ C07S.Inv (step xmlParse st ref l10n).1 ∧
+      (step xmlParse st ref l10n).1.extraAndroid = st.extraAndroid ∧
+      (step xmlParse st ref l10n).1.reference = st.reference :=
+  ⟨C07S.step_snd xmlParse st ref l10n h, C07S.inv_step xmlParse st ref l10n h, C07S.step_frame xmlParse st ref l10n h⟩
+
+/-- checker_sequence_is_pointwise: ONE checker over any list of (reference entity, localized entity) pairs — repeated
+    keys, textually equal reference values, the same pair again — yields for every pair exactly the verdict a fresh
+    checker gives for that pair alone; whatever the shared text buffer held before. -/
+theorem checker_sequence_is_pointwise (xmlParse : Bytes → ParseRes) (android : Bool) (t0 : Text)
+    (reference : Option (List Text)) (pairs : List (Ent × Ent)) :
+    (runSeq xmlParse (startState android t0 reference) pairs).map (·.2)
+      = pairs.map (fun p => check xmlParse ⟨android, reference, p.1, p.2⟩) := by
+  rw [C07S.runSeq_snd xmlParse pairs _ (startState_inv android t0 reference)]
+  apply List.map_congr_left
+  intro p _
+  cases reference <;> rfl
+
+/-- checker_history_independent: the verdict for a pair does not depend on what the same checker checked before -/
+theorem checker_history_independent (xmlParse : Bytes → ParseRes) (android : Bool) (t0 t0' : Text)
+    (reference : Option (List Text)) (before before' : List (Ent × Ent)) (p : Ent × Ent) :
+    ((runSeq xmlParse (startState android t0 reference) (before ++ [p])).map (·.2)).getLast?
+      = ((runSeq xmlParse (startState android t0' reference) (before' ++ [p])).map (·.2)).getLast? := by
+  rw [checker_sequence_is_pointwise, checker_sequence_is_pointwise]
+  simp
+
+/-- the memo is real state: after the first `check` with a reference set, `__known_entities` holds the union of
+    the names the reference values use, and later calls read it -/
+theorem checker_memo_filled (xmlParse : Bytes → ParseRes) (android : Bool) (t0 : Text) (vals : List Text)
+    (ref l10n : Ent) :
+    (step xmlParse (startState android t0 (some vals)) ref l10n).1.known = some (C07S.knownOf vals) :=
+  C07S.step_fills_memo xmlParse _ ref l10n vals rfl rfl
+
+section examplesS
+private def okParse : Bytes → ParseRes := fun _ => ⟨none, []⟩
+private def tx' (s : String) : List Nat := s.toList.map Char.toNat
+private def ent (k v : String) : Ent := ⟨tx' k, tx' ("<!ENTITY " ++ k ++ " \"" ++ v ++ "\">"), tx' v⟩
+
+/-- non-vacuity: two entities with the SAME reference CSS spec through one checker; the second (junk) is an error
+    exactly as for a fresh checker (the seeded "memo of the parsed reference spec" regression returned nothing here) -/
+example : ((runSeq okParse (startState false [] (some [tx' "width: 4em; height: 3em;", tx' "width: 4em; height: 3em;"]))
+      [(ent "a" "width: 4em; height: 3em;", ent "a" "width: 5em; height: 2em;"),
+       (ent "b" "width: 4em; height: 3em;", ent "b" "junk")]).map (fun so => so.2.results))
+    = [[], [specError]] := by decide +kernel
+
+/-- negation witness for `Inv.memo` (forced): `set_reference` AGAIN after a check leaves the memo of the OLD
+    reference in place — the object then answers from stale state and differs from the stateless verdict.
+    (The real callers never do this; the harness probes nothing there.) -/
+example :
+    let st1 := (step okParse (startState false [] (some [tx' "&foo;"])) (ent "k" "x") (ent "k" "y")).1
+    let st2 := setReference st1 [tx' "no refs"]
+    (step okParse st2 (ent "k" "x") (ent "k" "&foo;")).2.results = [] ∧
+    (check okParse (inpOf st2 (ent "k" "x") (ent "k" "&foo;"))).results
+      = [unknownWarning [] [] (tx' "foo")] := by decide +kernel
+
+/-- negation witness for `Inv.pc` (forced): an object whose `processContent` disagrees with its extra tests reads a
+    stale text buffer in the android section -/
+example :
+    let st : State := ⟨true, false, none, none, [39], false⟩
+    (step okParse st (ent "k" "x") (ent "k" "y")).2.results ≠ (check okParse (inpOf st (ent "k" "x") (ent "k" "y"))).results := by
+  decide +kernel
+
+end examplesS
+end instance_
+
+/-! ## round 4: the second template document (`<!ENTITY key q value q>` + `&key;`)
+
+`XmlContent.wfValue declared key v` = `wf declared v` and the value is an entity LITERAL whose replacement text is
+well-formed content.  `C07L.Lit v rt` is the grammar of entity literals (XML 1.0 `EntityValue` inside the internal
+subset: no `%`, every `&` begins a complete reference, character references are expanded, entity references are
+bypassed) with the replacement text `rt`. -/
+
+section second_document
+open XmlContent
+
+/-- literal_grammar: the scanner `litExpand` (with the fuel `wfValue` gives it) decides the grammar `Lit` and computes
+    the replacement text -/
+theorem literal_grammar (v rt : XmlContent.Text) : litExpand (v.length + 1) v = some rt ↔ C07L.Lit v rt :=
+  C07L.litExpand_iff v rt
+
+/-- second_document_iff: what the two documents of a value demand together -/
+theorem second_document_iff (declared : List XmlContent.Text) (key v : XmlContent.Text) :
+    wfValue declared key v = true ↔
+      wf declared v = true ∧ ∃ rt, C07L.Lit v rt ∧ wf (declared.filter (fun d => !(d == key))) rt = true :=
+  C07L.wfValue_iff declared key v
+
+/-- percent_rejected: a `%` ANYWHERE in the value — in text, inside a comment, a CDATA section, a processing
+    instruction, an attribute value, as `%foo;` — makes the value unacceptable for the second document
+    (`&#037;` is the only way to write it) -/
+theorem percent_rejected (declared : List XmlContent.Text) (key a b : XmlContent.Text) :
+    wfValue declared key (a ++ 37 :: b) = false :=
+  C07L.wfValue_false_of_not_lit declared key _ (fun ⟨_, hl⟩ => C07L.lit_no_percent hl (by simp))
+
+/-- amp_must_begin_reference: an `&` ANYWHERE in the value that is not the beginning of a complete reference
+    (`&name;`, `&#digits;`, `&#xhex;` with a legal character number) is rejected by the second document — also where
+    the first document does not mind it (comment, CDATA section, processing instruction: witnesses below) -/
+theorem amp_must_begin_reference (declared : List XmlContent.Text) (key a b : XmlContent.Text) (h : ¬ C07L.RefStart b) :
+    wfValue declared key (a ++ 38 :: b) = false :=
+  C07L.wfValue_false_of_not_lit declared key _ (fun ⟨_, hl⟩ => h (C07L.lit_amp_is_reference hl a b rfl))
+
+/-- … in particular `&` at the end, or followed by anything but `#` or a name start character -/
+theorem bare_amp_rejected_anywhere (declared : List XmlContent.Text) (key a b : XmlContent.Text)
+    (h : b = [] ∨ ∃ c t, b = c :: t ∧ c ≠ 35 ∧ isNameStart c = false) :
+    wfValue declared key (a ++ 38 :: b) = false := by
+  apply amp_must_begin_reference
+  rcases h with rfl | ⟨c, t, rfl, h1, h2⟩
+  · exact C07L.not_refStart_nil
+  · exact C07L.not_refStart_head c t h1 h2
+
+/-- second_document_bytes: the second document is `tmpl % (all + entities, "&key;")` byte for byte -/
+theorem second_document_bytes (entities : Dtd.Text) (e : Ent) (d : Bytes) (h : docDecl entities e = some d) :
+    ∃ a dcl k, utf8 e.all = some a ∧ utf8 entities = some dcl ∧ utf8 e.key = some k ∧
+      d = Gen.Tables.dtdTmplPre ++ (a ++ dcl) ++ Gen.Tables.dtdTmplMid ++ (38 :: k ++ [59]) ++ Gen.Tables.dtdTmplPost :=
+  C07L.docDecl_bytes entities e d h
+
+/-- second_document_keeps_delimiter: if the entity's source text (`l10nEnt.all`) is `<!ENTITY` S key S q value q S? `>`
+    — q the quotation mark OR the apostrophe — then the declaration standing in the second document is that text
+    with the SAME delimiter q around the UTF-8 bytes of the value: the checker never re-quotes the value. -/
+theorem second_document_keeps_delimiter (entities : Dtd.Text) (e : Ent) (ws1 ws2 ws3 : Dtd.Text) (q : Nat)
+    (hq : q = 34 ∨ q = 39) (h1 : ∀ c ∈ ws1, c < 128) (h2 : ∀ c ∈ ws2, c < 128) (h3 : ∀ c ∈ ws3, c < 128)
+    (hall : e.all = C07L.declText ws1 e.key ws2 q e.val ws3) (d : Bytes) (h : docDecl entities e = some d) :
+    ∃ k v dcl, utf8 e.key = some k ∧ utf8 e.val = some v ∧ utf8 entities = some dcl ∧
+      d = Gen.Tables.dtdTmplPre ++ (C07L.declText ws1 k ws2 q v ws3 ++ dcl) ++ Gen.Tables.dtdTmplMid ++
+        (38 :: k ++ [59]) ++ Gen.Tables.dtdTmplPost :=
+  C07L.docDecl_keeps_delimiter entities e ws1 ws2 ws3 q hq h1 h2 h3 hall d h
+
+/-- the monitored contract for the second document (expat is external): given that the first document of the
+    localized value was accepted, expat accepts the second one iff the value is an acceptable entity literal -/
+def ExpatContract2 (xmlParse : Bytes → ParseRes) (i : Inp) : Prop :=
+  ∀ d4, docDecl (l10nDecls i) i.l10n = some d4 → wf (declaredNames i) i.l10n.val = true →
+    ((xmlParse d4).err = none ↔ wfValue (declaredNames i) i.l10n.key i.l10n.val = true)
+
+/-- no_xml_error_iff_wfValue: under the two monitored expat contracts and unless the check raises, the check reports
+    NO xmlparse error iff the value passes `wfValue` relative to the names the template declares — the first sentence
+    of the property with both documents, expat being the only hypothesis. -/
+theorem no_xml_error_iff_wfValue (xmlParse : Bytes → ParseRes) (i : Inp) (h : (check xmlParse i).exc = none)
+    (hc : ExpatContract xmlParse) (hc2 : ExpatContract2 xmlParse i) :
+    (check xmlParse i).results.filter isXmlError = [] ↔
+      wfValue (declaredNames i) i.l10n.key i.l10n.val = true := by
+  rw [xml_error_is_error xmlParse i h]
+  obtain ⟨_, h1, _⟩ := andThen_ok (by unfold check at h; exact h)
+  obtain ⟨_, h2, _⟩ := andThen_ok h1
+  obtain ⟨h3, _, _⟩ := andThen_ok h2
+  have hnil : ∀ o, verdictResults i.l10n.val o = [] ↔ o = none := by
+    intro o
+    cases o with
+    | none => simp [verdictResults]
+    | some e =>
+      simp only [verdictResults, reduceCtorEq, iff_false]
+      intro hn
+      have := (xmlError_eq i.l10n.val e).2
+      rw [hn] at this
+      cases this
+  rw [hnil]
+  have hwf1 : wfValue (declaredNames i) i.l10n.key i.l10n.val = true → wf (declaredNames i) i.l10n.val = true := by
+    intro hw; unfold wfValue at hw; simp only [Bool.and_eq_true] at hw; exact hw.1
+  unfold l10nSection at h3
+  unfold l10nVerdict
+  cases hd3 : docValue (l10nDecls i) i.l10n.val with
+  | none => simp [hd3] at h3
+  | some d3 =>
+    simp only [hd3] at h3 ⊢
+    have hc3 := hc (declaredNames i) i.l10n.val d3 (by rw [← l10nDecls_eq]; exact hd3)
+    cases he3 : (xmlParse d3).err with
+    | some e =>
+      simp only [reduceCtorEq, false_iff]
+      intro hw
+      have := hc3.mpr (hwf1 hw)
+      rw [he3] at this; cases this
+    | none =>
+      simp only [he3] at h3 ⊢
+      have hwf := hc3.mp he3
+      cases hd4 : docDecl (l10nDecls i) i.l10n with
+      | none => simp [hd4] at h3
+      | some d4 => exact hc2 d4 hd4 hwf
+
+/-- percent_is_error: under the contracts, a localized value containing `%` is reported as an xmlparse error
+    (exactly one result, by `xml_error_is_error`) — "a stray percent reference in its declaration is always reported" -/
+theorem percent_is_error (xmlParse : Bytes → ParseRes) (i : Inp) (h : (check xmlParse i).exc = none)
+    (hc : ExpatContract xmlParse) (hc2 : ExpatContract2 xmlParse i) (a b : Dtd.Text) (hv : i.l10n.val = a ++ 37 :: b) :
+    (check xmlParse i).results.filter isXmlError ≠ [] := by
+  intro hn
+  have := (no_xml_error_iff_wfValue xmlParse i h hc hc2).mp hn
+  rw [hv, percent_rejected] at this
+  cases this
+
+/-- bare_amp_is_error: the same for an `&` that does not begin a reference, wherever it stands -/
+theorem bare_amp_is_error (xmlParse : Bytes → ParseRes) (i : Inp) (h : (check xmlParse i).exc = none)
+    (hc : ExpatContract xmlParse) (hc2 : ExpatContract2 xmlParse i) (a b : Dtd.Text) (hv : i.l10n.val = a ++ 38 :: b)
+    (hb : ¬ C07L.RefStart b) :
+    (check xmlParse i).results.filter isXmlError ≠ [] := by
+  intro hn
+  have := (no_xml_error_iff_wfValue xmlParse i h hc hc2).mp hn
+  rw [hv, amp_must_begin_reference _ _ _ _ hb] at this
+  cases this
+
+section examplesL
+private def ty (s : String) : List Nat := s.toList.map Char.toNat
+
+/-- non-vacuity of `Lit`: "a&#65;&foo;" has the replacement text "aA&foo;" -/
+example : C07L.Lit ([97] ++ ((38 :: 35 :: ([54, 53] ++ [59])) ++ ((38 :: 102 :: ([111, 111] ++ [59])) ++ [])))
+    ([97] ++ ([C07L.decVal [54, 53]] ++ ((38 :: 102 :: ([111, 111] ++ [59])) ++ []))) :=
+  .cons _ _ _ _ (.char 97 (by decide) (by decide) (by decide)) <|
+  .cons _ _ _ _ (.dec [54, 53] (by decide) (by decide) (by decide)) <|
+  .cons _ _ _ _ (.ent 102 [111, 111] (by decide) (by decide)) .nil
+example : litExpand 12 (ty "a&#65;&foo;") = some (ty "aA&foo;") := by decide
+/-- `<!--& -->`, `<![CDATA[50%]]>`, `<?p & ?>` are well-formed CONTENT, and rejected as literals -/
+example : wf [] (ty "<!--& -->") = true ∧ wfValue [] [107] (ty "<!--& -->") = false := by decide
+example : wf [] (ty "<![CDATA[50%]]>") = true ∧ wfValue [] [107] (ty "<![CDATA[50%]]>") = false := by decide
+/-- the premise of `bare_amp_rejected_anywhere` on "& " -/
+example : ¬ C07L.RefStart (ty " -->") := C07L.not_refStart_head 32 _ (by decide) (by decide)
+/-- both delimiters: the declarations `<!ENTITY k "it's">` and `<!ENTITY k 'say "hi"'>` are `declText` instances -/
+example : ty "<!ENTITY k \"it's\">" = C07L.declText [32] [107] [32] 34 (ty "it's") [] := by decide
+example : ty "<!ENTITY k 'say \"hi\"'>" = C07L.declText [32] [107] [32] 39 (ty "say \"hi\"") [] := by decide
+/-- why the delimiter must be kept (seeded change C07-1): re-quoting `'say "hi"'` with `"` gives another document,
+    whose literal ends at the first inner quote -/
+example : docDecl [] ⟨[107], ty "<!ENTITY k 'say \"hi\"'>", ty "say \"hi\""⟩
+    ≠ docDecl [] ⟨[107], ty "<!ENTITY k \"say \"hi\"\">", ty "say \"hi\""⟩ := by decide
+end examplesL
+end second_document
+
+/-! ## round 4: `processAndroidContent` (extra test `android-dtd`)
+
+The property mentions the android checks only as part of the mechanism; these theorems say what the method guarantees
+for the text content `val` the XML parser delivered for the localized value.  `androidSection val` is the model of
+`processAndroidContent(val)`: first the result of `unicode_escape` (at most one error), then one error per unescaped
+quote/apostrophe. -/
+
+section android
+open C07A
+
+/-- android_quotes_regex_free: the second half of `processAndroidContent` without any regex.  `qkind val` says whether
+    the whole string is quoted (`quoted.match`): if not, `val` is scanned for `"` and `'` and positions are shifted by
+    -1; if it is quoted with `q`, `val[1:-1]` is scanned for `q` only.  `strayList` skips the maximal run of
+    backslashes, looks at the next character, reports it (position after it) iff it is of the class and the run is even. -/
+theorem android_quotes_regex_free (val : Text) :
+    androidSection val = (escOut val).andThen fun _ =>
+      .ok ((strayList (qkind val).1.cls ((qkind val).2.length + 1) 0 (qkind val).2).map (mkRes (qkind val).1.offset)) :=
+  androidSection_quotes val
+
+/-- android_quote_rule (the apostrophe rule in plain words): the scan reports a quote character at index `j` — as
+    position `j + 1` — iff the number of consecutive backslashes immediately before it is EVEN: `'`, `\\'` are
+    reported, `\'`, `\\\'` are not.  (`isQ` = the class scanned for; a backslash is never in it.) -/
+theorem android_quote_rule (isQ : Nat → Bool) (hq : isQ 92 = false) (l : Text) (e c : Nat) :
+    (e, c) ∈ strayList isQ (l.length + 1) 0 l ↔
+      ∃ j, e = j + 1 ∧ l[j]? = some c ∧ isQ c = true ∧ bsBefore l j % 2 = 0 := by
+  have := mem_strayList isQ hq l.length l (l.length + 1) 0 (Nat.le_refl _) (by omega) e c
+  simpa using this
+
+/-- android_unquoted_kind: a value that does not begin with `"` or `'` is scanned as a whole for both characters -/
+theorem android_unquoted_kind (val : Text) (h : val.head? ≠ some 34 ∧ val.head? ≠ some 39) :
+    qkind val = (.any, val) :=
+  qkind_unquoted val h
+
+/-- android_plain_text_fine: text without backslashes never has an escape error — non-ASCII characters are protected
+    by `encode("ascii", "backslashreplace")`, whose `\xhh`, `\uhhhh`, `\Uhhhhhhhh` decode again -/
+theorem android_plain_text_fine (val : Text) (h92 : 92 ∉ val) (hlt : ∀ c ∈ val, c < 0x110000) :
+    unicodeEscape val = some .fine :=
+  unicodeEscape_plain val h92 hlt
+
+/-- android_escape_position: characters before the first backslash count ONE each, whatever they are: the scan of
+    `pre ++ rest` is the scan of `rest` with the character counter started at `pre.length` — so an error in the first
+    escape is reported at the index of its backslash in the ORIGINAL string (the point of `unicode_escape`'s
+    re-computation of `args[2]`).  After a valid escape the counter is the number of DECODED characters (witness below). -/
+theorem android_escape_position (pre rest : Text) (h92 : 92 ∉ pre) (hlt : ∀ c ∈ pre, c < 0x110000) :
+    unicodeEscape (pre ++ rest) = (backslashReplace rest).map (fun b => ueScan (b.length + 1) pre.length b) :=
+  unicodeEscape_skip pre rest h92 hlt
+
+/-- android_escapes_decoded: `\\`, `\'`, `\"`, `\b`, `\f`, `\t`, `\n`, `\r`, `\v`, `\a` are one decoded character … -/
+theorem android_escapes_decoded (f n e : Nat) (tail : Bytes)
+    (he : e = 92 ∨ e = 39 ∨ e = 34 ∨ e = 98 ∨ e = 102 ∨ e = 116 ∨ e = 110 ∨ e = 114 ∨ e = 118 ∨ e = 97) :
+    ueScan (f + 1) n (92 :: e :: tail) = ueScan f (n + 1) tail :=
+  scan_escaped_simple f n e tail he
+
+/-- … `\uXXXX` with four hex digits is one decoded character … -/
+theorem android_u4_decoded (f n : Nat) (ds tail : Bytes) (hl : ds.length = 4) (hh : ∀ d ∈ ds, (hexVal d).isSome = true) :
+    ueScan (f + 1) n (92 :: 117 :: (ds ++ tail)) = ueScan f (n + 1) tail :=
+  scan_u4_ok f n ds tail hl hh
+
+/-- … and `\u` followed by fewer than four hex digits (then the end, or a character that is no hex digit) is THE
+    error "truncated \uXXXX escape" at the counter of its backslash -/
+theorem android_u4_truncated (f n : Nat) (hs rest : Bytes) (hl : hs.length < 4)
+    (hr : rest = [] ∨ ∃ c t, rest = c :: t ∧ hexVal c = none) :
+    ueScan (f + 1) n (92 :: 117 :: (hs ++ rest)) = .error n msgTruncU4 :=
+  scan_u4_trunc f n _ (ueHex4_none hs rest hl hr)
+
+/-- android_named_escape: what the MODEL does with `\N{name}` (non-empty name, closing brace): it gives up
+    (`unsupported`, the harness skips the comparison) — the real decoder asks the Unicode name database: a known name
+    is one decoded character, an unknown one is the error "unknown Unicode character name".  `\N` not followed by
+    `{` is the error "malformed \N character escape" in model and code. -/
+theorem android_named_escape (f n : Nat) (name tail : Bytes) (hne : name ≠ []) (h125 : 125 ∉ name) :
+    ueScan (f + 1) n (92 :: 78 :: 123 :: (name ++ 125 :: tail)) = .unsupported ∧
+    (∀ bytes, (∀ t, bytes ≠ 123 :: t) → ueScan (f + 1) n (92 :: 78 :: bytes) = .error n msgMalformedN) :=
+  ⟨scan_named f n name tail hne h125, fun bytes h => scan_named_malformed f n bytes h⟩
+
+/-- android_named_with_database: `DtdNamed.ueScanN known` is the scan with the Unicode name database as a parameter (a
+    known name is one decoded character, an unknown one is the error "unknown Unicode character name"; tied to the
+    real `unicode_escape` by the `c07.uescape` correspondence).  Wherever the database-free model answers at all, both
+    agree: the database matters only at well-formed `\\N{name}` escapes. -/
+theorem android_named_with_database (known : Bytes → Bool) (f n : Nat) (b : Bytes) (h : ueScan f n b ≠ .unsupported) :
+    DtdNamed.ueScanN known f n b = ueScan f n b :=
+  named_agrees known f n b h
+
+/-- android_silent: no backslash, no quote, no apostrophe (characters being code points): nothing is reported -/
+theorem android_silent (val : Text) (h92 : 92 ∉ val) (h34 : 34 ∉ val) (h39 : 39 ∉ val) (hlt : ∀ c ∈ val, c < 0x110000) :
+    androidSection val = .ok [] :=
+  androidSection_silent val h92 h34 h39 hlt
+
+section examplesA
+private def tz (s : String) : List Nat := s.toList.map Char.toNat
+
+/-- the rule, evaluated: in `it's \'ok\' \\'` the first and the last apostrophe are reported (positions 3 and 15 = index + 1) -/
+example : strayList (fun c => c == 34 || c == 39) 30 0 (tz "it's \\'ok\\' \\\\'") = [(3, 39), (15, 39)] := by decide
+example : (androidSection (tz "it's")).results = [⟨.error, .num 2, msgApos, .android⟩] := by decide +kernel
+example : (androidSection (tz "it\\'s")).results = [] := by decide +kernel
+/-- non-ASCII text is fine, a truncated escape after it is reported at the index of its backslash in the original text -/
+example : unicodeEscape (tz "日本\\u00") = some (.error 2 msgTruncU4) := by decide +kernel
+/-- … but after a VALID escape the counter is in decoded characters: `\\u0041\\u00` reports 1, the backslash stands at 6
+    (observation; positions are outside the property) -/
+example : unicodeEscape (tz "\\u0041\\u00") = some (.error 1 msgTruncU4) := by decide +kernel
+/-- a quoted string ending in a newline: `val[1:-1]` strips the newline, not the closing quote, which is then reported
+    (observation; `$` in `quoted` accepts the final newline) -/
+example : (androidSection (tz "\"ab\"\n")).results = [⟨.error, .num 3, msgQuotes, .android⟩] := by decide +kernel
+end examplesA
+end android
+
+/-! ## round 4: `parse_css_spec` on ALL texts — completeness of the grammar, Unicode white space
+
+`css_grammar_accepts` was the direction grammar ⇒ no errors.  Here: for EVERY text what `parse_css_spec` returns, the
+converse direction, and hence: the error "reference is a CSS spec" is reported iff the localized value is NOT a text of
+the grammar `C08C.CssSpec` (white space = exactly SPACE, TAB, CR, LF; digits = exactly 0-9). -/
+
+section css_complete
+
+/-- css_parse_total: for every text, either no declaration `prop ws* : ws* number unit` stands anywhere in it and
+    `parse_css_spec` returns `(None, None)`, or the text is the chain `C07G.SpecT` of its leftmost declarations and
+    `parse_css_spec` returns exactly their dict and one error per gap that is not a correct separator (first gap and
+    trail: `ws* ;? ws*`; between declarations: `ws* ; ws*`, white space alone = css-missing-semicolon, anything else =
+    css-bad-content).  No hypothesis on the text. -/
+theorem css_parse_total (v : Text) :
+    (C07G.NoDeclIn v.length v ∧ parseCssSpec v = (none, none)) ∨
+    ∃ ds errs, C07G.SpecT true 0 ds v errs ∧ parseCssSpec v = (some (C08C.declMap ds), C08C.optOf errs) :=
+  C07G.parse_total v
+
+/-- css_complete: whatever text `parse_css_spec` turns into a map without errors is a text of the grammar, and the
+    map is the dict of its declarations -/
+theorem css_complete (v : Text) (mp : List (Text × Text)) (h : parseCssSpec v = (some mp, none)) :
+    ∃ ds, C08C.CssSpec ds v ∧ mp = C08C.declMap ds :=
+  C07G.css_complete v mp h
+
+/-- css_language_iff: `parse_css_spec v` has a map and no errors ⟺ `v` is in the grammar language — for ALL texts -/
+theorem css_language_iff (v : Text) : (∃ mp, parseCssSpec v = (some mp, none)) ↔ ∃ ds, C08C.CssSpec ds v :=
+  C07G.css_language v
+
+/-- css_match_is_declaration: wherever the generated `_css_spec` matches non-emptily, a grammatical declaration
+    stands (soundness of the regex against the grammar, by inversion of the engine on the generated regex) -/
+theorem css_match_is_declaration (s : Array Nat) (q : Nat) (st : Rx.St) (hq : q < s.size)
+    (h : Rx.matchAt s Gen.Pat.CSSCheckMixin__css_spec q = some st) :
+    ∃ (d : C08C.Decl) (rest : Text), d.Ok ∧ s.toList.drop q = d.text ++ rest ∧ st = C08C.declSt q d := by
+  obtain ⟨d, rest, hd, hdr⟩ := C07G.spec_match_inv s q st hq h
+  refine ⟨d, rest, hd, hdr, ?_⟩
+  have := C08C.decl_match s q d hd rest hdr
+  rw [h] at this
+  exact Option.some.inj this
+
+/-- css_sep_match_is_edge: whenever `_css_sep` matches a gap, the gap is `ws* ;? ws*` -/
+theorem css_sep_match_is_edge (s : Array Nat) (e : Nat) (sp : Rx.St) (he : e ≤ s.size)
+    (h : Rx.matchAt s Gen.Pat.CSSCheckMixin__css_sep e = some sp) : C08C.IsEdge (s.toList.drop e) :=
+  C07G.sep_match_edge s e sp he h
+
+/-- css_error_iff_not_grammar: against a reference with a CSS spec, the error "reference is a CSS spec" is reported
+    iff the localized value is not a text of the grammar — both directions, every localized text -/
+theorem css_error_iff_not_grammar (refVal l10nVal : Text) (refMap : List (Text × Text)) (hne : refMap ≠ [])
+    (href : (parseCssSpec refVal).1 = some refMap) :
+    maybeStyle refVal l10nVal = [specError] ↔ ¬ ∃ ds, C08C.CssSpec ds l10nVal := by
+  constructor
+  · rintro h ⟨ds, hg⟩
+    rw [css_grammar_never_error refVal l10nVal refMap hne href ds hg] at h
+    split at h
+    · cases h
+    · have := congrArg (fun l => l.map (·.level)) h
+      simp [specError] at this
+  · intro hng
+    rw [css_rules refVal l10nVal refMap hne href]
+    cases h1 : (parseCssSpec l10nVal).1 with
+    | none => rfl
+    | some lm =>
+      cases lm with
+      | nil => rfl
+      | cons x xs =>
+        cases h2 : (parseCssSpec l10nVal).2 with
+        | none =>
+          exfalso
+          apply hng
+          obtain ⟨ds, hc, _⟩ := css_complete l10nVal (x :: xs) (by rw [← h1, ← h2])
+          exact ⟨ds, hc⟩
+        | some er =>
+          cases er with
+          | nil => exact absurd h2 (C07G.parse_errors_ne_nil l10nVal)
+          | cons e es => rfl
+
+/-- css_alphabet: every character of a text that is parsed without errors is SPACE, TAB, CR, LF, `;`, `:`, `.`, a digit
+    0-9 or a letter of a property name / unit … -/
+theorem css_alphabet (v : Text) (mp : List (Text × Text)) (h : parseCssSpec v = (some mp, none)) :
+    ∀ c ∈ v, C07G.cssChar c = true := by
+  obtain ⟨ds, hc, _⟩ := css_complete v mp h
+  exact C07G.cssSpec_chars hc
+
+/-- unicode_space_is_no_separator: … so a character outside that alphabet ANYWHERE in the localized value makes it an
+    error against a reference with a CSS spec; in particular (second part) NBSP, IDEOGRAPHIC SPACE, EM SPACE, LINE
+    SEPARATOR, NEL, VT, FF, US, an ARABIC-INDIC and a FULLWIDTH digit — what `\\s` / `\\d` would add to the explicit
+    classes `[ \\t\\r\\n]` / `[0-9]` of the code -/
+theorem unicode_space_is_no_separator :
+    (∀ (refVal l10nVal : Text) (refMap : List (Text × Text)), refMap ≠ [] → (parseCssSpec refVal).1 = some refMap →
+      ∀ c ∈ l10nVal, C07G.cssChar c = false → maybeStyle refVal l10nVal = [specError]) ∧
+    (C07G.cssChar 160 = false ∧ C07G.cssChar 0x3000 = false ∧ C07G.cssChar 0x2003 = false ∧ C07G.cssChar 0x2028 = false ∧
+     C07G.cssChar 0x85 = false ∧ C07G.cssChar 11 = false ∧ C07G.cssChar 12 = false ∧ C07G.cssChar 0x1f = false ∧
+     C07G.cssChar 0x663 = false ∧ C07G.cssChar 0xFF13 = false) := by
+  refine ⟨?_, C07G.foreign_chars⟩
+  intro refVal l10nVal refMap hne href c hc hfalse
+  rw [css_error_iff_not_grammar refVal l10nVal refMap hne href]
+  rintro ⟨ds, hg⟩
+  have := C07G.cssSpec_chars hg c hc
+  rw [hfalse] at this
+  cases this
+
+section examplesG
+private def tw (s : String) : List Nat := s.toList.map Char.toNat
+/-- regression pins on the generated regexes: NBSP after the colon, IDEOGRAPHIC SPACE after the semicolon, a
+    FULLWIDTH digit — all errors; the same with SPACE / a digit — silent -/
+example : maybeStyle (tw "width:1em") (tw "width:\u00a01em") = [specError] := by decide +kernel
+example : maybeStyle (tw "width:1em;height:2px") (tw "width:1em;\u3000height:2px") = [specError] := by decide +kernel
+example : maybeStyle (tw "width:1em") (tw "width:\uff11em") = [specError] := by decide +kernel
+example : maybeStyle (tw "width:1em;height:2px") (tw "width:1em; height:2px") = [] := by decide +kernel
+/-- a text with a declaration and junk: the chain and the verdict, evaluated -/
+example : parseCssSpec (tw "xwidth:1em") = (some [(tw "width", tw "em")], some [⟨0, .badContent⟩]) := by decide +kernel
+/-- no declaration anywhere -/
+example : parseCssSpec (tw "width: 1 em") = (none, none) := by decide +kernel
+end examplesG
+end css_complete
+
 end C07
